@@ -93,6 +93,10 @@ class C06:
             store = g8.valid(rng, "store") if rng.random() < 0.6 else None
             meta = g8.meta(rng) if rng.random() < 0.6 else None
             cases.append(self.mk(cfg, tree, ev, plan, store, meta))
+            # a store.toml that is present but cannot be read as text (not UTF-8, a directory): an error, never
+            # "no previous store" -- only a missing file may be tolerated
+            if rng.random() < 0.12 and cfg["exe"] == "build":
+                cases[-1]["store_unreadable"] = rng.choice(["nonutf8", "isdir"])
         return cases
 
     def desc_doc(self, c):
@@ -108,7 +112,9 @@ class C06:
         for c in cases:
             c["desc_text"] = render_doc(self.desc_doc(c), 1)
             c["plan_text"] = render_doc(c["plan_doc"], 0)
-            if c["store_doc"] is not None:
+            if c.get("store_unreadable"):
+                c["store"] = c["store_unreadable"]
+            elif c["store_doc"] is not None:
                 c["store"] = "ok"
                 c["store_text"] = render_doc(c["store_doc"], 1)
             else:
@@ -146,6 +152,8 @@ class C06:
         tv_vars = "(mkTV %s %s %s %s %s)" % tuple(var(k) for k in ("os", "arch", "variant", "dname", "dver"))
         phase = "PhBuild" if c["exe"] == "build" else "PhDetect"
         store = "None" if c["store_doc"] is None else f"(Some {cq_tv(c['store_doc'])})"
+        if c.get("store_unreadable"):
+            store = "(Some (TStr []))"       # present, but not a document: decoding it as a Store fails
         inputs = f"(mkIn {phase} {cq_fs(self.platform_fs(c))} {tv_vars} {cq_tv(self.desc_doc(c))} {cq_tv(c['plan_doc'])} {store})"
         ctx = o.get("build_context") if c["exe"] == "build" else o.get("detect_context")
         entered = (o["build_entered"] if c["exe"] == "build" else o["detect_entered"]) == 1
@@ -188,7 +196,7 @@ class C06:
         for k in list(c["env_values"]):
             ev = dict(c["env_values"]); del ev[k]
             yield dict(c, env_values=ev)
-        if c["store_doc"] is not None:
+        if c["store_doc"] is not None and not c.get("store_unreadable"):
             yield dict(c, store_doc=None)
         if c["meta_doc"]:
             yield dict(c, meta_doc=None)
